@@ -58,7 +58,7 @@ fn replay_regressions(env: &mut Env, id: &str) -> u64 {
             continue;
         };
         n += 1;
-        match func(&rep.case) {
+        match func(&rep.case, &rep.before) {
             Ok((Verdict::Fail(fl), _)) => {
                 if env.is_known(&fl.sig).is_none() {
                     env.violations.push(Replay {
@@ -71,6 +71,7 @@ fn replay_regressions(env: &mut Env, id: &str) -> u64 {
                         actual: fl.actual,
                         signature: fl.sig,
                         shrunk: true,
+                        before: rep.before.clone(),
                     });
                 }
             }
@@ -262,6 +263,9 @@ fn cmd_merge(args: &[String]) -> i32 {
             std::fs::write(&path, text).ok();
             println!("VIOLATION property={} replay={}", id, path);
             println!("  check={} profile={} signature={:?}", v.check, v.profile, v.signature);
+            if !v.before.is_empty() {
+                println!("  judged before it on the same thread: {}", serde_json::Value::Array(v.before.clone()));
+            }
             println!("  case={}", v.case);
             println!("  expected: {}", v.expected);
             println!("  actual:   {}", v.actual);
@@ -333,7 +337,7 @@ fn cmd_replay(args: &[String]) -> i32 {
         eprintln!("unknown check {}", rep.check);
         return 2;
     };
-    match func(&rep.case) {
+    match func(&rep.case, &rep.before) {
         Ok((Verdict::Fail(f), _)) => {
             if let Some(k) = env.is_known(&f.sig) {
                 println!("KNOWN-FINDING: property={} {} [signature={}]", rep.property, k.what, k.signature);
@@ -384,7 +388,7 @@ fn cmd_fuzz_decode(args: &[String]) -> i32 {
     let Ok(data) = std::fs::read(file) else { return 2 };
     match astrolabe_verif::fuzz::decode(target, &data) {
         Some((property, check, case)) => {
-            let rep = Replay { property, check, profile: "fuzz".into(), seed: 0, case, expected: String::new(), actual: format!("libFuzzer artifact {}", file), signature: String::new(), shrunk: false };
+            let rep = Replay { property, check, profile: "fuzz".into(), seed: 0, case, expected: String::new(), actual: format!("libFuzzer artifact {}", file), signature: String::new(), shrunk: false, before: Vec::new() };
             println!("{}", serde_json::to_string_pretty(&rep).unwrap());
             0
         }
